@@ -78,8 +78,12 @@ def main():
                     alt = fast_json.dumps(v, indent=None)
                     buf = io.StringIO()
                     fast_json.dump(v, buf)
-                    alt2 = buf.getvalue()
-                    r["altSame"] = bool(all("\n" not in a and "\r" not in a and tag(fast_json.loads(a)) == tag(v) for a in (alt, alt2)))
+                    alts = [alt, buf.getvalue()]
+                    if fast_json.HAS_ORJSON:
+                        bbuf = io.BytesIO()          # the stream kind the fast back end can write to
+                        fast_json.dump(v, bbuf)
+                        alts.append(bbuf.getvalue().decode("utf-8"))
+                    r["altSame"] = bool(all("\n" not in a and "\r" not in a and tag(fast_json.loads(a)) == tag(v) for a in alts))
                 except Exception:
                     r["altSame"] = False
             except Exception as e:
@@ -133,7 +137,11 @@ def main():
             s = "".join(chr(c) for c in cps)
             try:
                 v = fast_json.loads(s.encode("utf-8") if asbytes else s)
-                out["results"].append({"ok": True, "tree": tag(v)})
+                # load() from a stream must read the same value
+                import io
+                v2 = fast_json.load(io.BytesIO(s.encode("utf-8")) if asbytes else io.StringIO(s))
+                same = tag(v2) == tag(v)
+                out["results"].append({"ok": bool(same), "tree": tag(v)})
             except Exception as e:
                 out["results"].append({"ok": False, "exc": type(e).__name__, "tree": ["other", "raised"]})
     json.dump(out, sys.stdout)
